@@ -446,9 +446,15 @@ def fam_failwrite(rnd, n):
         if rnd.random() < 0.4:
             a = rnd.choice(seq_actions(sh))
             out[a] = ["tr", "ok"] if sh["retries"] else ["perm"]
-        # a plan of this size makes 20-60 writes; a k beyond the last write is an ordinary run
-        k = rnd.randint(1, 14) if rnd.random() < 0.5 else rnd.randint(1, 45)
-        s = scn(sh, "free", out, fn=True, tag="failwrite", latmax=100, waitms=5000, failat=k)
+        # two thirds of the scenarios fail the n-th write of a KIND (every kind comes round), the others a position
+        # (a plan of this size makes 20-60 writes; a k beyond the last write is an ordinary run)
+        kinds = ["act/Running", "act/Running+att", "act/Completed", "act/Running", "seq/Running", "seq/Completed", "blk/Running", "blk/Completed",
+                 "chk/Running", "chk/Completed", "plan/Running", "plan/Completed", "act/Failed", "plan/Failed", "blk/Failed", "seq/Failed"]
+        if i % 3 != 2:
+            fail = dict(failkind=kinds[(i - i // 3) % len(kinds)], failnth=rnd.choice([1, 1, 2, 3]))
+        else:
+            fail = dict(failat=rnd.randint(1, 14) if rnd.random() < 0.5 else rnd.randint(1, 45))
+        s = scn(sh, "free", out, fn=True, tag="failwrite", latmax=100, waitms=5000, **fail)
         s["kind"] = "failwrite"
         res.append(s)
     return res
